@@ -260,9 +260,9 @@ func (in *Interp) exec(fr *frame, s ast.Stmt) ctl {
 			panic(evalErr("inc/dec of non-integer at %s", in.pos(s.Pos())))
 		}
 		if s.Tok == token.INC {
-			c.set(n + 1)
+			c.set(wrapInt(n+1, info.TypeOf(s.X)))
 		} else {
-			c.set(n - 1)
+			c.set(wrapInt(n-1, info.TypeOf(s.X)))
 		}
 		return ctlNone
 	case *ast.ReturnStmt:
@@ -678,7 +678,7 @@ func (in *Interp) assign(fr *frame, s *ast.AssignStmt) {
 		if op == 0 {
 			panic(evalErr("unsupported assignment operator %s at %s", s.Tok, in.pos(s.Pos())))
 		}
-		lv.set(in.binop(op, lv.get(), rhs[0], s))
+		lv.set(wrapInt(in.binop(op, lv.get(), rhs[0], s), info.TypeOf(s.Lhs[0])))
 		return
 	}
 	for i, l := range s.Lhs {
@@ -710,7 +710,7 @@ func (in *Interp) evalMulti(fr *frame, e ast.Expr, n int) []Value {
 				if c, ok := m.M[k]; ok {
 					return []Value{copyVal(c.V), true}
 				}
-				return []Value{zero(fr.pkg.TypesInfo.TypeOf(x)), false}
+				return []Value{zero(tupleFirst(fr.pkg.TypesInfo.TypeOf(x))), false}
 			case nil:
 				return []Value{zero(tupleFirst(fr.pkg.TypesInfo.TypeOf(x))), false}
 			}
@@ -1006,7 +1006,7 @@ func (in *Interp) eval(fr *frame, e ast.Expr) Value {
 		case token.LOR:
 			return in.evalBool(fr, e.X) || in.evalBool(fr, e.Y)
 		}
-		return in.binop(e.Op, in.eval1(fr, e.X), in.eval1(fr, e.Y), e)
+		return wrapInt(in.binop(e.Op, in.eval1(fr, e.X), in.eval1(fr, e.Y), e), info.TypeOf(e))
 	case *ast.IndexExpr:
 		if tv, ok := info.Types[e.X]; ok && tv.IsType() {
 			panic(evalErr("generic instantiation unsupported at %s", in.pos(e.Pos())))
@@ -1086,6 +1086,34 @@ func (in *Interp) eval(fr *frame, e ast.Expr) Value {
 	case *ast.KeyValueExpr:
 	}
 	panic(evalErr("unsupported expression %T at %s", e, in.pos(e.Pos())))
+}
+
+// wrapInt truncates an integer result to the width of its static type, as Go's
+// arithmetic does.
+func wrapInt(v Value, t types.Type) Value {
+	n, ok := v.(int64)
+	if !ok || t == nil {
+		return v
+	}
+	b, ok := t.Underlying().(*types.Basic)
+	if !ok {
+		return v
+	}
+	switch b.Kind() {
+	case types.Uint8:
+		return int64(uint8(n))
+	case types.Uint16:
+		return int64(uint16(n))
+	case types.Uint32:
+		return int64(uint32(n))
+	case types.Int8:
+		return int64(int8(n))
+	case types.Int16:
+		return int64(int16(n))
+	case types.Int32:
+		return int64(int32(n))
+	}
+	return v
 }
 
 func (in *Interp) binop(op token.Token, a, b Value, at ast.Node) Value {
